@@ -271,7 +271,7 @@ fn run(ctx: &Ctx, _mode: &str) -> Report {
     let known = load_known(&ctx.verif_dir);
     let f6_open = is_open(&known, "C17", "frontier-increase-by-ended-replica-not-forwarded");
     let counter = std::cell::Cell::new(0u64);
-    search(ctx, 1, ctx.cases(2400, 80_000), 40..260, &mut report, |choices, rep, _| {
+    search(ctx, 1, ctx.cases(8000, 160_000), 40..260, &mut report, |choices, rep, _| {
         let c = decode(choices);
         let n = counter.get();
         counter.set(n + 1);
